@@ -178,3 +178,21 @@ prop("C03", modules=["codehash"],
      design_ref="DESIGN.md section 6, C03",
      trusted=["value table of seed-independent repr(); 'sorting removes iteration order' (bag lemma); seed independence is checked on value terms by substituting a second seed"],
      assumptions=[])
+
+FDS = "storage_filesystem:_FilesystemDataSource."
+prop("C08", modules=["crash"],
+     functions=[FDS + n for n in ("_write_non_versioned_link", "output", "_read_non_versioned_link", "exists_nonversioned", "get_versioned_key",
+                                  "exists_versioned", "input_nonversioned", "input_versioned")]
+     + ["storage_base:DataSourceMetadataSource.get_mementos", "storage_base:Codec.BlobStrategy.store", SBB + "memoize"],
+     assume_props=["C05", "C06", "C07", "C19"], custom_replay="crash_replay", extra_checks=["contracts.extra:crash_faults"],
+     function_modules={"storage_base:Codec.BlobStrategy.store": ["codec"], SBB + "memoize": ["storage", "codec"]},
+     design_ref="DESIGN.md section 6, C08",
+     trusted=["OS model: the assumed contracts of open / write / close / os.replace / os.makedirs / uuid4 (contracts/crash.py header)",
+              "path algebra: link, version-file and temporary paths are disjoint families with the inverses pathlib gives (memento's key space)",
+              "refinement step (stated, not machine-checked): the ghost file system maps to the abstract DataSource view latest/blobs of C07 "
+              "(latest[k] = version named by the link of k, blobs = complete version files); the contracts proved for _FilesystemDataSource are the "
+              "image of the interface contracts assumed by BlobStrategy.store and StorageBackendBase.memoize, whose own intermediate states are checked here",
+              "clauses tagged C05 / C06 / C07 / C19 of the storage contracts are assumed here and proved by those checks over the same functions",
+              "memento_run_local swallows an OSError of memoize and recomputes on an OSError of read_result: proved under C02 / C10"],
+     assumptions=["one process writes (C09 is not applicable); a crash state is the state after some primitive's normal or exceptional outcome",
+                  "after a failed write the memory cache may hold the entry the store lacks (it carries the value); cache/store coherence after an OSError is not claimed"])
